@@ -313,6 +313,27 @@ theorem C09_same_call_same_answer (env : Env) (hd : docWf env.doc = true) (p : P
   have hget : p.ctxs[ci]? = some p.ctxs[ci] := List.getElem?_eq_getElem hc
   rw [C09_answer_independent_of_history env hd p hi ops1 ci _ hget, C09_answer_independent_of_history env hd p hi ops2 ci _ hget]
 
+/-- C4 (same in every process): a context created at ANY point of ANY history — whatever contexts, encoders and cache
+entries the process already has — answers every later call, after any further history, exactly as `standalone`
+does: the same configuration (defaults document + overrides of the target language) assembled in a process that does
+nothing else.  Together with C3: an answer is a function of (defaults, target language, overrides, language, instance,
+id type) and of nothing else. -/
+theorem C09_context_answers_as_in_fresh_process (env : Env) (hd : docWf env.doc = true) (p : Proc) (hi : Inv env p)
+    (target : Str) (ov : List (Str × OVal)) :
+    (standalone env target ov = none ∧ load env p target ov = .error .keyError) ∨
+    ∃ h0 s0 p', standalone env target ov = some (h0, s0) ∧ load env p target ov = .ok p' ∧
+      ∀ (ops : List Op) (lang : Str) (inst : Inst) (ty : Str),
+        (use env (run env p' ops) p.ctxs.length lang inst ty).2.result = pureAnswer env h0 s0 lang inst ty := by
+  rcases load_eq_standalone env p target ov with hnone | ⟨h0, s0, hs, hl⟩
+  · exact Or.inl hnone
+  · refine Or.inr ⟨h0, s0, _, hs, hl, ?_⟩
+    intro ops lang inst ty
+    have hx := load_spec hd hi target ov hl
+    have hc : (p.ctxs ++ [Ctx.mk (s0.map (fun e => (e.1, relocSec p.heap.length e.2))) []])[p.ctxs.length]? =
+        some (Ctx.mk (s0.map (fun e => (e.1, relocSec p.heap.length e.2))) []) := by simp
+    rw [C09_answer_independent_of_history env hd _ hx.inv ops p.ctxs.length _ hc lang inst ty]
+    exact pureAnswer_reloc env p.heap h0 s0 lang inst ty
+
 /-! non-vacuity of C: on the generated environment, a history with a second context, a cache hit and an error; the
 cache answers the third call (`hit`), the answer is the specification's. -/
 section examples
@@ -328,6 +349,11 @@ example : (use Gen.StropGlue.env (run Gen.StropGlue.env Proc.init hist) 1 (lit2 
     = ⟨.ok (lit2 "_std_s"), false, true⟩ := by decide +kernel
 example : (use Gen.StropGlue.env (run Gen.StropGlue.env Proc.init hist) 0 (lit2 "cpp") (.plain (.text (lit2 "std"))) (lit2 "any")).2
     = ⟨.ok (lit2 "_std"), false, false⟩ := by decide +kernel
+-- the same context created third in a busy process and alone in a fresh one
+example : (standalone Gen.StropGlue.env (lit2 "cpp") [(lit2 "stropping_suffix", .str (lit2 "_s"))]).isSome = true ∧
+    (match standalone Gen.StropGlue.env (lit2 "cpp") [(lit2 "stropping_suffix", .str (lit2 "_s"))] with
+     | some (h0, s0) => pureAnswer Gen.StropGlue.env h0 s0 (lit2 "cpp") (.plain (.text (lit2 "std"))) (lit2 "any")
+     | none => .error .noContext) = .ok (lit2 "_std_s") := by decide +kernel
 example : filterId true cfgPy (.plain (.int true 12)) (lit2 "any") = .ok (lit2 "zX002D12") ∧
     filterId true cfgC (.named .none) (lit2 "any") = .ok (lit2 "None") ∧
     filterId true cfgPy (.named .none) (lit2 "any") = .ok (lit2 "None_") := by decide +kernel
